@@ -242,14 +242,14 @@ REQUIRED_GUARDS = [
     # (function, substrings of the canonical path condition, outcome prefix, panic sites that rely on it)
     ('<ast::SingleExpression as ast::AbstractSyntaxTree>::analyze', ['inner(from)=List', 'Le(get(', 'len(inner(from)@List.0))=T'], 'err:ExpressionUnexpectedType',
      'Partition::from_slice / Value::list / StructuralValue::list assert len < bound'),
-    ('<ast::SingleExpression as ast::AbstractSyntaxTree>::analyze', ['inner(from)=Array', 'Eq(len(inner(from)@Array.0)', '=F'], 'err:ExpressionUnexpectedType', 'array length invariant of typed values'),
+    ('<ast::SingleExpression as ast::AbstractSyntaxTree>::analyze', ['inner(from)=Array', 'Eq(as_array(ty).1, len(inner(from)@Array.0))=F'], 'err:ExpressionUnexpectedType', 'array length invariant of typed values'),
     ('<ast::CallName as ast::AbstractSyntaxTree>::analyze', ['name(from)=Fold', 'Eq(2_usize, len(params(', '=F'], 'err:FunctionNotFoldable', 'params().first()/get(1).expect("foldable function"), params()[1]'),
     ('<ast::CallName as ast::AbstractSyntaxTree>::analyze', ['name(from)=ForWhile', 'Eq(3_usize, len(params(', '=F'], 'err:FunctionNotLoopable', 'params().first()/get(1)/get(2).unwrap() of a loop function'),
     ('value::Value::parse_hexadecimal', ['as_inner(ty)=UInt', 'is_empty(as_inner(hexadecimal))=T'], 'err:ExpressionUnexpectedType', 'UIntValue::try_from(bytes).expect("valid length") for sub-byte widths'),
     ('value::Value::parse_hexadecimal', ['as_inner(ty)=UInt', 'Eq(0_usize, Rem(len(as_inner(hexadecimal)), 2_usize))=F'], 'err:ExpressionUnexpectedType', 'Vec::from_hex(s).expect("valid chars and valid length")'),
     ('value::Value::parse_hexadecimal', ['as_inner(ty)=UInt', 'checked_mul(byte_width(as_inner(ty)@UInt.0), 2_usize))=F'], 'err:ExpressionUnexpectedType', 'UIntValue::try_from(bytes).expect("valid length")'),
     ('value::Value::parse_hexadecimal', ['as_inner(ty)=Either|Option|Boolean|Tuple|List'], 'err:ExpressionUnexpectedType', 'unreachable!() in the second match on the type'),
-    ('value::UIntValue::parse_binary', ['eq<UIntType>(ok_or(from_bit_width(ok_or(new(len(as_inner(binary)))', '=F'], 'err:ExpressionTypeMismatch', 'bytes[0], padded_bits.next().unwrap(), try_from(bytes).expect("Enough bytes")'),
+    ('value::UIntValue::parse_binary', ['eq<UIntType>(from_bit_width(new(len(as_inner(binary)))), ty)=F'], 'err:ExpressionTypeMismatch', 'bytes[0], padded_bits.next().unwrap(), try_from(bytes).expect("Enough bytes")'),
     ('<parse::Match as parse::PestParse>::parse', ['.pattern=other'], 'err:IncompatibleMatchArms', 'unreachable!() in Match::scrutinee_type'),
     ('pattern::Pattern::is_of_type', ['=Tuple', 'Eq(len(', '=F'], 'err:ExpressionUnexpectedType', 'pattern/value layout agreement used by BasePattern::translate'),
 ]
@@ -264,22 +264,60 @@ def r_required_guards(ctx):
     for path, subs, out, what in REQUIRED_GUARDS:
         fn = ctx.anchor(fx, path)
         if path not in cache:
-            cache[path] = guards.decision_table(ctx, fn)
+            cache[path] = guards.decision_table(ctx, fn, plain=True)
         hit = [r for r in cache[path] if r['out'].startswith(out) and all(x in ' & '.join(r['conds']) for x in subs)]
         ctx.ob(rid, 'guard:%s:%s' % (path.split('::')[-2][-24:] + '::' + path.split('::')[-1], ' '.join(subs)[:70]), bool(hit), 'rejecting row [%s] ⇒ %s protects: %s' % (' & '.join(subs), out, what), fn.where())
     # `?`-guards: the type deconstruction that precedes each `.expect("value is type-checked")`
     fn = ctx.anchor(fx, '<ast::SingleExpression as ast::AbstractSyntaxTree>::analyze')
-    rows = guards.decision_table(ctx, fn)
+    rows = guards.decision_table(ctx, fn, plain=True)
     for form, dec in (('Either', 'as_either'), ('Option', 'as_option'), ('Tuple', 'as_tuple'), ('Array', 'as_array'), ('List', 'as_list'), ('Decimal', 'as_integer'), ('Binary', 'as_integer')):
         ok = [r for r in rows if r['out'].startswith('ok') and any(c.startswith('inner(from)=' + form) for c in r['conds'])]
         good = bool(ok) and all(any(('ok_or(%s(ty), ExpressionUnexpectedType{ty})' % dec) in c for c in r['checks']) for r in ok)
         ctx.ob(rid, 'deconstruct:' + form, good, '%s expressions are accepted only after `ty.%s().ok_or(ExpressionUnexpectedType)?` (typed-value invariant G4)' % (form, dec), fn.where())
 
 
+GUARD_DOMINATES = [
+    # (function, arm, guard that must have been tested (with outcome) before the site, argument text that identifies the sites)
+    ('<ast::CallName as ast::AbstractSyntaxTree>::analyze', 'name(from)=Fold', 'Eq(2_usize, len(params(', 'params('),
+    ('<ast::CallName as ast::AbstractSyntaxTree>::analyze', 'name(from)=ForWhile', 'Eq(3_usize, len(params(', 'params('),
+]
+
+
+def r_guard_dominance(ctx, rid='R06.8'):
+    """The rejecting row exists (R06.5) and it is tested *before* the panic-capable access it protects, on every path."""
+    from .. import guards
+    ctx.rule(rid, 'guard before access: on every path of the arm, each indexing / unwrap / expect on the guarded collection happens after the length test with the accepting outcome')
+    fx = ctx.facts()
+    for path, arm, guard, argtxt in GUARD_DOMINATES:
+        fn = ctx.anchor(fx, path)
+        n, bad = 0, []
+        for kind, p, ret in explore(ctx, fn):
+            if p is None:
+                continue
+            cs = [guards.unq('%s=%s' % guards.canon_cond(w, l)) for w, l in p.conds]
+            if arm not in cs:
+                continue
+            for e in p.events:
+                if e[0] == 'assert' and 'BoundsCheck' in e[1] and argtxt in sv(e[2]):
+                    last, what = 'index', sv(e[2])
+                elif e[0] == 'call' and e[1].split('::')[-1] in ('index', 'unwrap', 'expect') and e[2] and argtxt in sv(e[2][0]):
+                    last, what = e[1].split('::')[-1], sv(e[2][0])
+                else:
+                    continue
+                n += 1
+                before = cs[:e[5]]
+                if not any(c.startswith(guard) and c.endswith('=T') for c in before):
+                    bad.append('%s(%s) at line %s after [%s]' % (last, what[:60], e[3], ' & '.join(before)[:160]))
+        ctx.ob(rid, 'dominates:%s:%s' % (path.split(' as ')[0].lstrip('<'), arm), n > 0 and not bad, 'arm %s: %d accesses to %s…) all follow the test %s…=T' % (arm, n, argtxt, guard), fn.where(), '; '.join(bad[:3]) if bad else ('no such access found' if n == 0 else None))
+
+
 def check(ctx):
     from . import c04
     c04.group_rule(ctx, 'R06.6', r"^(num::(NonZero)?Pow2Usize::new|<error::Span as std::convert::From<&str>>::from|<error::Span as std::convert::From<&'a pest::iterators::Pair<'_, parse::Rule>>>::from|<error::RichError as std::convert::From<pest::error::Error<parse::Rule>>>::from|types::UIntType::(byte_width|bit_width|from_bit_width)|error::Span::to_slice|<value::UIntValue as std::convert::TryFrom<&\\[u8\\]>>::try_from)$", 'functions whose results are preconditions of panic-capable sites (positions >= 1, power-of-two bounds > 1, byte widths)', 6)
     r_required_guards(ctx)
+    r_guard_dominance(ctx)
+    from . import binding
+    binding.r_tags(ctx, 'R06.7', arms_only=True)   # Match::scrutinee_type's unreachable!() relies on the normalised arm order
     r_shape_selftest(ctx)
     n = panic_rule(ctx, 'R06.1')
     ctx.floor('R06.1', 'panic-capable sites in reachable functions', n[0], 300)
